@@ -15,6 +15,7 @@ package main
 
 import (
 	"fmt"
+	"strings"
 	"go/token"
 	"go/types"
 
@@ -25,27 +26,102 @@ type bufAppend struct {
 	instr ssa.Instruction
 	val   ssa.Value // the single byte appended (nil: several bytes / not understood)
 	blk   *ssa.BasicBlock
+	std   bool // a call of the standard library's encoder on the buffer
 }
 
-// bufferAppends lists what fn appends to the write buffer: stores of
-// append(w.buf, b) into the buffer field and calls of (*WriteBuf).Byte.
+// bufferChain: the values of fn that are "the write buffer with possibly
+// more appended": loads of the buffer field, appends (builtin, or the
+// standard library's binary.Append*) whose first argument is in the chain,
+// and phis all of whose edges are in the chain.
+func bufferChain(fn *ssa.Function, bufF string) map[ssa.Value]bool {
+	chain := map[ssa.Value]bool{}
+	for changed := true; changed; {
+		changed = false
+		for _, b := range fn.Blocks {
+			for _, in := range b.Instrs {
+				v, isV := in.(ssa.Value)
+				if !isV || chain[v] {
+					continue
+				}
+				ok := false
+				switch x := in.(type) {
+				case *ssa.UnOp:
+					if fa, isFA := x.X.(*ssa.FieldAddr); isFA && x.Op == token.MUL && isWriteBufPtr(fa.X.Type()) && fieldName(fa.X.Type(), fa.Field) == bufF {
+						ok = true
+					}
+				case *ssa.Call:
+					if len(x.Call.Args) > 0 && chain[x.Call.Args[0]] {
+						if isBuiltinCall(x, "append") {
+							ok = true
+						} else if g := x.Call.StaticCallee(); g != nil && strings.HasPrefix(qualName(g), "encoding/binary.Append") {
+							ok = true
+						}
+					}
+				case *ssa.Phi:
+					// optimistic (a loop carries the buffer round): one edge in the chain; checked below
+					for _, e := range x.Edges {
+						if chain[e] {
+							ok = true
+						}
+					}
+				}
+				if ok {
+					chain[v] = true
+					changed = true
+				}
+			}
+		}
+	}
+	// prune what the optimism let in wrongly
+	for changed := true; changed; {
+		changed = false
+		for v := range chain {
+			bad := false
+			switch x := v.(type) {
+			case *ssa.Phi:
+				for _, e := range x.Edges {
+					if !chain[e] {
+						bad = true
+					}
+				}
+			case *ssa.Call:
+				if len(x.Call.Args) == 0 || !chain[x.Call.Args[0]] {
+					bad = true
+				}
+			}
+			if bad {
+				delete(chain, v)
+				changed = true
+			}
+		}
+	}
+	return chain
+}
+
+// bufferAppends lists what fn appends to the write buffer: builtin appends in
+// the buffer chain (whether stored back at once or carried in a local until
+// the end) and calls of (*WriteBuf).Byte.
 func bufferAppends(P *Program, fn *ssa.Function, bufF string) []bufAppend {
 	var out []bufAppend
+	chain := bufferChain(fn, bufF)
 	for _, b := range fn.Blocks {
 		for _, in := range b.Instrs {
 			switch x := in.(type) {
-			case *ssa.Store:
-				fa, ok := x.Addr.(*ssa.FieldAddr)
-				if !ok || !isWriteBufPtr(fa.X.Type()) || fieldName(fa.X.Type(), fa.Field) != bufF {
+			case *ssa.Call:
+				if g := x.Call.StaticCallee(); g != nil && qualNameShort(g) == "(*WriteBuf).Byte" && len(x.Call.Args) == 2 {
+					out = append(out, bufAppend{instr: in, val: x.Call.Args[1], blk: b})
 					continue
 				}
-				call, isCall := x.Val.(*ssa.Call)
-				if !isCall || !isBuiltinCall(call, "append") || len(call.Call.Args) != 2 {
-					out = append(out, bufAppend{instr: in, blk: b})
+				if !chain[x] {
+					continue
+				}
+				if !isBuiltinCall(x, "append") || len(x.Call.Args) != 2 {
+					// the standard encoder applied to the buffer: accounted for by its caller
+					out = append(out, bufAppend{instr: in, blk: b, std: true})
 					continue
 				}
 				var bv ssa.Value
-				if sl, isSl := call.Call.Args[1].(*ssa.Slice); isSl {
+				if sl, isSl := x.Call.Args[1].(*ssa.Slice); isSl {
 					if a, isA := sl.X.(*ssa.Alloc); isA {
 						if at, isArr := a.Type().Underlying().(*types.Pointer).Elem().Underlying().(*types.Array); isArr && at.Len() == 1 {
 							for _, r := range referrersOf(a) {
@@ -61,9 +137,11 @@ func bufferAppends(P *Program, fn *ssa.Function, bufF string) []bufAppend {
 					}
 				}
 				out = append(out, bufAppend{instr: in, val: bv, blk: b})
-			case *ssa.Call:
-				if g := x.Call.StaticCallee(); g != nil && qualNameShort(g) == "(*WriteBuf).Byte" && len(x.Call.Args) == 2 {
-					out = append(out, bufAppend{instr: in, val: x.Call.Args[1], blk: b})
+			case *ssa.Store:
+				// a store into the buffer field of something that is not in the chain
+				fa, ok := x.Addr.(*ssa.FieldAddr)
+				if ok && isWriteBufPtr(fa.X.Type()) && fieldName(fa.X.Type(), fa.Field) == bufF && !chain[x.Val] {
+					out = append(out, bufAppend{instr: in, blk: b})
 				}
 			}
 		}
@@ -109,6 +187,52 @@ func strip64(v ssa.Value) ssa.Value {
 // isZigZag: e is (v << 1) ^ (v >> 63) computed on the signed 64-bit v, with
 // conversions to unsigned anywhere after the shifts.
 func isZigZag(e ssa.Value, v ssa.Value) bool {
+	// the standard library's own spelling: ux := uint64(v) << 1; if v < 0 { ux = ^ux }
+	if phi, isPhi := strip64(e).(*ssa.Phi); isPhi && len(phi.Edges) == 2 {
+		shl1 := func(a ssa.Value) bool {
+			b, ok := strip64(a).(*ssa.BinOp)
+			if !ok || b.Op != token.SHL || strip64(b.X) != v || !is64(b.Type()) {
+				return false
+			}
+			k, isK := constInt(b.Y)
+			return isK && k == 1
+		}
+		for i := 0; i < 2; i++ {
+			plain, flipped := phi.Edges[i], phi.Edges[1-i]
+			if !shl1(plain) {
+				continue
+			}
+			isCompl := false
+			switch f := strip64(flipped).(type) {
+			case *ssa.UnOp:
+				isCompl = f.Op == token.XOR && strip64(f.X) == strip64(plain)
+			case *ssa.BinOp:
+				if f.Op == token.XOR && strip64(f.X) == strip64(plain) {
+					if k, isK := constInt(f.Y); isK && k == -1 {
+						isCompl = true
+					}
+				}
+			}
+			if !isCompl {
+				continue
+			}
+			neg := func(facts []Cmp, want token.Token) bool {
+				for _, c := range facts {
+					if stripChange(c.X) == v {
+						if k, isK := constInt(c.Y); isK && k == 0 && c.Op == want {
+							return true
+						}
+					}
+				}
+				return false
+			}
+			pb := phi.Block()
+			if neg(cmpFactsOnEdge(pb.Preds[1-i], pb), token.LSS) && neg(cmpFactsOnEdge(pb.Preds[i], pb), token.GEQ) {
+				return true
+			}
+		}
+		return false
+	}
 	x, ok := strip64(e).(*ssa.BinOp)
 	if !ok || x.Op != token.XOR {
 		return false
@@ -292,12 +416,8 @@ func handVarint(P *Program, m *ssa.Function, bufF string) (verdict int, msg stri
 	// the results of the standard encoders are stored into the buffer: those stores are not hand-made appends
 	var hand []bufAppend
 	for _, a := range apps {
-		if st, isSt := a.instr.(*ssa.Store); isSt {
-			if call, isCall := st.Val.(*ssa.Call); isCall {
-				if g := call.Call.StaticCallee(); g != nil && (qualName(g) == "encoding/binary.AppendVarint" || qualName(g) == "encoding/binary.AppendUvarint") {
-					continue
-				}
-			}
+		if a.std {
+			continue
 		}
 		hand = append(hand, a)
 	}
